@@ -102,6 +102,8 @@ pub struct MapSpec {
     pub stream: (u32, u32),
     /// shifts the starting position of the objects: (100 + 37 j mod 300, 100 + 23 j mod 200)
     pub jitter: u8,
+    /// the object list is a motif that is repeated this many times (0 and 1 = once): long periodic maps
+    pub repeat: u32,
 }
 
 /// Gaps >= END_REL are measured from the previous object's *end*: gap - END_REL ms after it.
@@ -119,6 +121,7 @@ impl MapSpec {
             objs,
             stream: (0, 0),
             jitter: 0,
+            repeat: 1,
         }
     }
 
@@ -161,7 +164,8 @@ impl MapSpec {
         let (mut x, mut y) = (100 + (37 * i32::from(self.jitter)) % 300, 100 + (23 * i32::from(self.jitter)) % 200);
         let mut col: u32 = 0;
         let keys = u32::from(self.keys.max(1));
-        for (i, o) in self.objs.iter().enumerate() {
+        let reps = self.repeat.max(1) as usize;
+        for (i, o) in self.objs.iter().cycle().take(self.objs.len() * reps).enumerate() {
             if i > 0 {
                 if o.gap >= END_REL {
                     t = prev_end + i64::from(o.gap - END_REL);
